@@ -2,6 +2,8 @@ package main
 
 import (
 	"fmt"
+	"math"
+	"strconv"
 	"go/types"
 	"sort"
 	"strings"
@@ -16,12 +18,12 @@ func init() {
 	register("C19",
 		"DECIDED: D1 kind tables close — for each mapping type T: T.Encode emits its own flag followed by (gamma, indexOffset) as float64LE in that order, the arm of mapping.Decode selected by that flag passes the two decoded values in the same order to a constructor whose result type is T; T.ToProto and T.EncodeProto emit the same Interpolation enum and the same (gamma, indexOffset) fields, and the arm of mapping.FromProto selected by that enum constructs T from (m.Gamma, m.IndexOffset); unknown kinds return an error. "+
 			"D2 constructors store what is serialised — the gamma / offset fields are the constructor's parameters (write-once: C14-D2 immutability) and the accuracy constructors return the result of the gamma constructors. "+
-			"D3 Equals — comma-ok assertion to the receiver's own type (different kinds are never equal), false on mismatch, otherwise the conjunction of the tolerance test on both parameter pairs with one tolerance; the tolerance helper is symmetric in its two values (exhaustive truth-table comparison over its condition atoms under the swap). "+
+			"D3 Equals — comma-ok assertion to the receiver's own type (different kinds are never equal), false on mismatch, otherwise the conjunction of the tolerance test on both parameter pairs with one tolerance; the tolerance helper is symmetric in its two values and implements the documented decision table (either value zero ⇒ both magnitudes within the tolerance; otherwise |x−y| ≤ tol·max(|x|,|y|)) — both by exhaustive truth-table comparison over its condition atoms. "+
 			"NOT DECIDED: the numeric part of 'clearly different accuracies are never equal'; equality of Index/Value/LowerBound after restoration beyond what D1–D2 and exact float64 transport imply.",
 		"one obligation per (mapping type × serialized form × direction), per Equals path, per truth assignment of the tolerance helper",
 		true, runC19)
 	register("C03",
-		"WEAKEST CLAIM — the property is numeric (alpha-accuracy, monotonicity, bin containment are NOT decided). DECIDED are only structural necessary conditions: D1 the manual floor of Index in every mapping (x ≥ 0 → int(x), else int(x) − 1) applied to log_like(value)·multiplier + indexOffset; D2 LowerBound applies the inverse function to (index − indexOffset)/multiplier with the same multiplier field, which the constructor sets to 1/log(gamma) in the matching base, and Value = LowerBound·(1+alpha) (C01-D4); D3 the int32 bounds MinInt32/MaxInt32 and the same offset/multiplier are wired into the min/max indexable values in every constructor; RelativeAccuracy is computed from the stored gamma only. "+
+		"WEAKEST CLAIM — the property is numeric (alpha-accuracy, monotonicity, bin containment are NOT decided). DECIDED are only structural necessary conditions: D1 the manual floor of Index in every mapping (x ≥ 0 → int(x), else int(x) − 1) applied to log_like(value)·multiplier + indexOffset; D2 LowerBound applies the inverse function to (index − indexOffset)/multiplier with the same multiplier field, which the constructor sets to 1/log(gamma) in the matching base, and Value = LowerBound·(1+alpha) (C01-D4); D3 the int32 bounds MinInt32/MaxInt32 and the same offset/multiplier are wired into the min/max indexable values in every constructor; RelativeAccuracy is computed from the stored gamma only; D4 the reported accuracy inverts the construction formula — gamma = ((1+α)/(1−α))^k in the accuracy constructor and RelativeAccuracy() = 1 − 2/(1+E) with ln E = f·ln gamma where k·f = 1 (only literal constants are evaluated), and the float-range bounds use gamma^(1/k); D5 interpolation consistency — the inverse functions split x into int(math.Floor(x)) and x − math.Floor(x) (a truncating floor is wrong for exact negative integers), the cubic polynomial satisfies A+B+C = 1 (continuity at binade boundaries), the Cardano inverse uses the constants derived from the same A, B, C, and the gamma exponent equals (maximum slope)·ln 2. "+
 			"NOT DECIDED: everything the statement says about numbers (accuracy, monotonicity, bin edges, exact inverses).",
 		"one obligation per mapping × clause",
 		false, runC03)
@@ -547,6 +549,47 @@ func c19Symmetric(c *Ctx, rule string, helper *ssa.Function) {
 	}
 	c.R.check(bad == "" && n > 0, rule, shortFn(helper)+"/symmetric", shortFn(helper), c.fpos(helper), "withinTolerance(x, y) = withinTolerance(y, x) for every truth assignment of its conditions", firstNonEmpty(bad, fmt.Sprintf("%d assignments over %d atoms agree", n, len(atoms))))
 	c.R.count("truth_assignments", n)
+	// decision table against the documented meaning: if either value is 0 both magnitudes must be within
+	// the tolerance; otherwise the difference must be within tolerance × the larger magnitude
+	role := map[string]string{}
+	for _, a := range atoms {
+		t := atomOf[a]
+		switch {
+		case t.isBin("==") && (t.Args[0].isConst("0") && t.Args[1].isParam(0) || t.Args[1].isConst("0") && t.Args[0].isParam(0)):
+			role["x0"] = a
+		case t.isBin("==") && (t.Args[0].isConst("0") && t.Args[1].isParam(1) || t.Args[1].isConst("0") && t.Args[0].isParam(1)):
+			role["y0"] = a
+		case t.isBin("<=") && t.Args[0].Op == "call" && t.Args[0].Sym == "math.Abs" && t.Args[0].Args[0].isParam(0) && t.Args[1].isParam(2):
+			role["xs"] = a
+		case t.isBin("<=") && t.Args[0].Op == "call" && t.Args[0].Sym == "math.Abs" && t.Args[0].Args[0].isParam(1) && t.Args[1].isParam(2):
+			role["ys"] = a
+		case t.isBin("<=") && strings.HasPrefix(a, "bin:<=(absdiff(param:0,param:1)") && strings.Contains(a, "math.Max(call:math.Abs(param:0),call:math.Abs(param:1))") && strings.Contains(a, "param:2"):
+			role["rel"] = a
+		}
+	}
+	if len(role) != 5 {
+		c.R.undecided(rule, shortFn(helper)+"/decision-table", shortFn(helper), c.fpos(helper), "atoms x==0, y==0, |x|≤tol, |y|≤tol, |x−y| ≤ tol·max(|x|,|y|)", fmt.Sprintf("recognised %v of %v", role, atoms))
+		return
+	}
+	bit := func(assign uint, r string) bool { return assign>>uint(idx[role[r]])&1 == 1 }
+	badT := ""
+	nT := 0
+	for assign := uint(0); assign < 1<<uint(len(atoms)); assign++ {
+		got, ok := eval(assign)
+		if !ok {
+			continue
+		}
+		nT++
+		want := bit(assign, "rel")
+		if bit(assign, "x0") || bit(assign, "y0") {
+			want = bit(assign, "xs") && bit(assign, "ys")
+		}
+		if got != want {
+			badT = fmt.Sprintf("x==0:%v y==0:%v |x|≤tol:%v |y|≤tol:%v rel:%v → %v, expected %v", bit(assign, "x0"), bit(assign, "y0"), bit(assign, "xs"), bit(assign, "ys"), bit(assign, "rel"), got, want)
+		}
+	}
+	c.R.check(badT == "" && nT > 0, rule, shortFn(helper)+"/decision-table", shortFn(helper), c.fpos(helper),
+		"either value zero ⇒ equal iff BOTH magnitudes are within the tolerance; otherwise iff |x−y| ≤ tol·max(|x|,|y|) (clearly different parameters are never equal)", firstNonEmpty(badT, fmt.Sprintf("%d consistent assignments agree", nT)))
 }
 
 // ---------------------------------------------------------------------------
@@ -664,6 +707,10 @@ func runC03(c *Ctx) {
 			}
 			c.R.check(ok && has && usesOff && usesMul, "C03-D3", name+"/bound/"+side.fld, shortFn(mi.ctor), c.fpos(mi.ctor), side.outer+"(… index bound "+side.cst+" with the same offset and multiplier …, float range bound)", fmt.Sprint(v))
 		}
+		// D4: the reported accuracy inverts the construction formula (constants only are evaluated)
+		k1 := c03AccuracyInverse(c, mi)
+		// D5: interpolation: floor decomposition in the inverse, polynomial constants consistent
+		c03Interpolation(c, mi, k1)
 		// RelativeAccuracy from gamma only
 		if f := c.P.DeclaredMethod(mi.t, "RelativeAccuracy"); c.mustFunc("C03-D3", f, name+".RelativeAccuracy") {
 			ps, _ := exec(c, f, nil, 1)
@@ -685,5 +732,226 @@ func runC03(c *Ctx) {
 			}
 			c.R.check(ok, "C03-D3", name+".RelativeAccuracy/from-gamma", shortFn(f), c.fpos(f), "the reported accuracy is a function of the stored gamma only", "")
 		}
+	}
+}
+
+func constFloat(t *Term) (float64, bool) {
+	if t == nil || t.Op != "const" {
+		return 0, false
+	}
+	v, err := strconv.ParseFloat(t.Sym, 64)
+	return v, err == nil
+}
+
+// c03AccuracyInverse: gamma = ((1+α)/(1−α))^k1 in the accuracy constructor; RelativeAccuracy() =
+// 1 − 2/(1+E) with ln E = f·ln gamma; the two are inverse functions iff k1·f = 1. The adjusted
+// gamma used for the indexable range must be gamma^(1/k1). Only literal constants are evaluated.
+func c03AccuracyInverse(c *Ctx, mi mappingInfo) float64 {
+	const rule = "C03-D4"
+	name := mi.t.Obj().Name()
+	isRatio := func(t *Term) bool {
+		if !t.isBin("/") {
+			return false
+		}
+		n, d := t.Args[0], t.Args[1]
+		okN := n.isBin("+") && (n.Args[0].isConst("1") && n.Args[1].isParam(0) || n.Args[1].isConst("1") && n.Args[0].isParam(0))
+		okD := d.isBin("-") && d.Args[0].isConst("1") && d.Args[1].isParam(0)
+		return okN && okD
+	}
+	k1, okK := 0.0, false
+	ps, _ := exec(c, mi.accCtor, nil, 1)
+	for _, p := range ps {
+		if p.RetNil(1) != 1 {
+			continue
+		}
+		for _, e := range p.Calls() {
+			if e.Call.Op == "call" && e.Call.Sym == funcName(mi.ctor) {
+				g := e.Call.Args[0]
+				switch {
+				case isRatio(g):
+					k1, okK = 1, true
+				case g.Op == "call" && g.Sym == "math.Pow" && isRatio(g.Args[0]):
+					k1, okK = constFloat(g.Args[1])
+				}
+			}
+		}
+	}
+	f, okF := 0.0, false
+	found := ""
+	if ra := c.P.DeclaredMethod(mi.t, "RelativeAccuracy"); ra != nil {
+		rp, _ := exec(c, ra, nil, 1)
+		if len(rp) == 1 {
+			r := rp[0].RetT[0]
+			found = r.Key()
+			// 1 − 2/(1+E)
+			if r.isBin("-") && r.Args[0].isConst("1") && r.Args[1].isBin("/") && r.Args[1].Args[0].isConst("2") && r.Args[1].Args[1].isBin("+") {
+				sum := r.Args[1].Args[1]
+				var E *Term
+				for i := 0; i < 2; i++ {
+					if sum.Args[i].isConst("1") {
+						E = sum.Args[1-i]
+					}
+				}
+				isG := func(t *Term) bool { return isRecvField(t, mi.gammaF) }
+				const ln2 = 0.6931471805599453
+				switch {
+				case E == nil:
+				case isG(E):
+					f, okF = 1, true
+				case E.Op == "call" && E.Sym == "math.Exp":
+					x := E.Args[0]
+					switch {
+					case x.Op == "call" && x.Sym == "math.Log" && isG(x.Args[0]):
+						f, okF = 1, true
+					case x.Op == "call" && x.Sym == "math.Log2" && isG(x.Args[0]):
+						f, okF = 1/ln2, true
+					case x.isBin("*"):
+						for i := 0; i < 2; i++ {
+							if k, ok := constFloat(x.Args[i]); ok && x.Args[1-i].Op == "call" && isG(x.Args[1-i].Args[0]) {
+								switch x.Args[1-i].Sym {
+								case "math.Log2":
+									f, okF = k/ln2, true
+								case "math.Log":
+									f, okF = k, true
+								}
+							}
+						}
+					}
+				}
+			}
+		}
+	}
+	okInv := okK && okF && math.Abs(k1*f-1) < 1e-12
+	c.R.check(okInv, rule, name+"/accuracy-inverts-construction", shortFn(mi.accCtor), c.fpos(mi.accCtor),
+		"gamma = ((1+α)/(1−α))^k and RelativeAccuracy() = 1 − 2/(1+E) with ln E = f·ln gamma and k·f = 1 (the reported accuracy equals the one the mapping was built with)",
+		fmt.Sprintf("k=%v (found=%v) f=%v (found=%v); RelativeAccuracy = %s", k1, okK, f, okF, found))
+	// adjusted gamma in the range bounds: gamma^(1/k)
+	if okK && k1 != 1 {
+		okAdj := false
+		foundAdj := "no math.Pow(gamma, c) in the constructor"
+		for _, fld := range []string{mi.minF, mi.maxF} {
+			if v := mi.ctorVals[fld]; v != nil {
+				v.walk(func(x *Term) bool {
+					if x.Op == "call" && x.Sym == "math.Pow" && x.Args[0].isParam(0) {
+						if e, ok := constFloat(x.Args[1]); ok {
+							foundAdj = fmt.Sprintf("gamma^%v", e)
+							okAdj = math.Abs(e*k1-1) < 1e-12
+						}
+					}
+					return true
+				})
+			}
+		}
+		c.R.check(okAdj, rule, name+"/adjusted-gamma", shortFn(mi.ctor), c.fpos(mi.ctor), "the float-range bounds use gamma^(1/k), the base of the non-interpolated logarithm", foundAdj)
+	}
+	if !okK {
+		return 0
+	}
+	return k1
+}
+
+// c03Interpolation: structural consistency of approximateLog / approximateInverseLog.
+func c03Interpolation(c *Ctx, mi mappingInfo, k1 float64) {
+	const rule = "C03-D5"
+	name := mi.t.Obj().Name()
+	lg := c.P.DeclaredMethod(mi.t, "approximateLog")
+	inv := c.P.DeclaredMethod(mi.t, "approximateInverseLog")
+	if lg == nil || inv == nil {
+		return // the logarithmic mapping uses math.Log / math.Exp directly (paired by C03-D2)
+	}
+	// (a) the inverse uses x only through floor(x) and x − floor(x)
+	ip, _ := exec(c, inv, nil, 1)
+	okFloor := len(ip) == 1
+	found := ""
+	if okFloor {
+		r := ip[0].RetT[0]
+		hasExp := false
+		bare := 0
+		var walk func(t *Term, parent *Term)
+		walk = func(t *Term, parent *Term) {
+			if t.isParam(1) {
+				okCtx := parent != nil && (parent.Op == "call" && parent.Sym == "math.Floor" || parent.isBin("-") && parent.Args[0] == t && parent.Args[1].Op == "call" && parent.Args[1].Sym == "math.Floor" && parent.Args[1].Args[0].isParam(1))
+				if !okCtx {
+					bare++
+				}
+			}
+			if t.Op == "conv" && t.Sym == "int" && t.Args[0].Op == "call" && t.Args[0].Sym == "math.Floor" && t.Args[0].Args[0].isParam(1) {
+				hasExp = true
+			}
+			for _, a := range t.Args {
+				walk(a, t)
+			}
+		}
+		walk(r, nil)
+		okFloor = hasExp && bare == 0
+		found = fmt.Sprintf("exponent=int(Floor(x)): %v; other uses of x outside Floor(x) / x−Floor(x): %d", hasExp, bare)
+	}
+	c.R.check(okFloor, rule, name+"/inverse-floor-decomposition", shortFn(inv), c.fpos(inv), "the inverse splits x into the exponent int(math.Floor(x)) and the fraction x − math.Floor(x) (a truncating floor is wrong for exact negative integers)", found)
+	// (b) polynomial of the forward function: ((A·s+B)·s+C)·s + e  or  e + s
+	lp, _ := exec(c, lg, nil, 1)
+	if len(lp) != 1 {
+		return
+	}
+	r := lp[0].RetT[0]
+	// collect the float constants of the forward polynomial in Horner order
+	var consts []float64
+	r.walk(func(t *Term) bool {
+		if v, ok := constFloat(t); ok && t.V != nil && isFloat(t.V.Type()) {
+			consts = append(consts, v)
+		}
+		return true
+	})
+	const ln2 = 0.6931471805599453
+	switch {
+	case strings.Contains(name, "Linear"):
+		// e + (s+1) − 1: slope 1
+		l := linearOf(r)
+		ok := l.Const == -1 && len(l.Coef) == 2
+		for _, co := range l.Coef {
+			if co != 1 {
+				ok = false
+			}
+		}
+		c.R.check(ok, rule, name+"/forward-shape", shortFn(lg), c.fpos(lg), "approximateLog = exponent + significandPlusOne − 1", r.Key())
+		c.R.check(k1 == 0 || math.Abs(k1-ln2) < 1e-12, rule, name+"/accuracy-exponent-matches-slope", shortFn(lg), c.fpos(lg), "gamma exponent = (maximum slope 1)·ln 2", fmt.Sprint(k1))
+	case strings.Contains(name, "Cubic"):
+		// Horner constants: the three float constants other than the literal 1 of (s+1)−1
+		var abc []float64
+		for _, v := range consts {
+			if v != 1 {
+				abc = append(abc, v)
+			}
+		}
+		if len(abc) != 3 {
+			c.R.undecided(rule, name+"/forward-shape", shortFn(lg), c.fpos(lg), "a cubic in Horner form with three constants", fmt.Sprint(consts))
+			return
+		}
+		// walk order yields A, B, C for ((A·s+B)·s+C)·s + e
+		A, B, C := abc[0], abc[1], abc[2]
+		c.R.check(math.Abs(A+B+C-1) < 1e-12, rule, name+"/continuous-at-binade", shortFn(lg), c.fpos(lg), "P(1) = A+B+C = 1 (the interpolation is continuous where the exponent increments)", fmt.Sprintf("A=%v B=%v C=%v sum=%v", A, B, C, A+B+C))
+		c.R.check(k1 == 0 || math.Abs(k1-C*ln2) < 1e-12, rule, name+"/accuracy-exponent-matches-slope", shortFn(lg), c.fpos(lg), "gamma exponent = (maximum slope C)·ln 2", fmt.Sprintf("k=%v C·ln2=%v", k1, C*ln2))
+		// inverse: Cardano constants derived from the same A, B, C
+		want := map[string]float64{"d0=B²−3AC": B*B - 3*A*C, "2B³−9ABC": 2*B*B*B - 9*A*B*C, "27A²": 27 * A * A, "3A": 3 * A, "B": B}
+		var have []float64
+		ip[0].RetT[0].walk(func(t *Term) bool {
+			if v, ok := constFloat(t); ok && t.V != nil && isFloat(t.V.Type()) {
+				have = append(have, v)
+			}
+			return true
+		})
+		var missing []string
+		for nm, w := range want {
+			ok := false
+			for _, h := range have {
+				if math.Abs(h-w) <= 1e-12*math.Max(1, math.Abs(w)) {
+					ok = true
+				}
+			}
+			if !ok {
+				missing = append(missing, fmt.Sprintf("%s=%v", nm, w))
+			}
+		}
+		sort.Strings(missing)
+		c.R.check(len(missing) == 0, rule, name+"/inverse-constants", shortFn(inv), c.fpos(inv), "the inverse (Cardano) uses the constants derived from the forward polynomial's A, B, C", firstNonEmpty(strings.Join(missing, " "), "all present"))
 	}
 }
